@@ -33,6 +33,15 @@ def shards(tier: str, seed: int) -> List[Dict[str, Any]]:
         for ci, c in enumerate(cfgs[: (1 if tier == "quick" else 2)]):
             for b in bsizes:
                 out.append({"id": f"{e}|{c['id']}|b{b}", "env": e, "cfg": c, "batch": b, "weight": HEAVY.get(e, 1.0) * (1 + b / 8)})
+    # large batches (32..256, the sizes training runs use): stack equivalence only, random actions on environments whose
+    # episodes end at random times, so that arbitrary subsets of the batch terminate on a step
+    big = [["Minesweeper", "r3c7m5"], ["Snake", "r3c5L7"], ["Knapsack", "n10b2sparse"], ["TSP", "n5sparse"]]
+    if tier == "quick":
+        out.append({"id": "bigbatch|quick", "kind": "big_batch", "weight": 4.0, "cfgs": big[:3], "batches": [64]})
+    else:
+        big += [["Game2048", "b3"], ["Maze", "r5c9L7"], ["Cleaner", "r5c11a2L7"], ["GraphColoring", "n6p5"], ["LevelBasedForaging", "g6a3f2v2gridL7"]]
+        for e_, c_ in big:
+            out.append({"id": f"bigbatch|{e_}", "kind": "big_batch", "weight": 4.0, "cfgs": [[e_, c_]], "batches": [32, 64, 96, 128, 256]})
     # render/slice clause on configurations whose per-instance state has unit-length axes (single agent, 1 city ...):
     # slicing element 0 must keep those axes
     out.append({"id": "render|unit_axes", "kind": "render_unit_axes", "weight": 3.0,
@@ -89,11 +98,67 @@ def run_render_unit_axes(shard: Dict[str, Any], rep: Report) -> None:
         E.cleanup()
 
 
+def run_big_batch(shard: Dict[str, Any], rep: Report) -> None:
+    import jax
+    import jax.numpy as jnp
+    from jumanji.wrappers import AutoResetWrapper, VmapAutoResetWrapper, VmapWrapper
+
+    rng = shard_rng(shard["seed"], shard["id"])
+    tol = dict(exact=False, rtol=1e-5, atol=1e-6)
+    n_steps = 40 if shard["tier"] == "quick" else 80
+    for name, cid in shard["cfgs"]:
+        cfg = E.cfg_by_id(name, cid)
+        env = E.build(name, cfg)
+        spec = env.action_spec
+        lo, hi = A.spec_bounds(spec)
+        for b in shard["batches"]:
+            keys = jnp.stack([key_for(shard["seed"], shard["id"] + name, j)[0] for j in range(b)])
+            for nobs in (False, True):
+                va = VmapAutoResetWrapper(env, next_obs_in_extras=nobs)
+                vb = VmapWrapper(AutoResetWrapper(env, next_obs_in_extras=nobs))
+                va_step, vb_step = jax.jit(va.step), jax.jit(vb.step)
+                cur, ts = jax.jit(va.reset)(keys)
+                hist = []
+                for i in range(n_steps):
+                    m = getattr(ts.observation, "action_mask", None)
+                    acts = rng.integers(lo, hi + 1, size=(b,) + tuple(spec.shape)).astype(A.np_dtype(spec))
+                    if m is not None and A.MASK_KIND[name] == "flat":
+                        # half of the elements play a masked-in action: episodes of very different lengths inside one batch
+                        mm = np.asarray(m).astype(bool)
+                        for j in range(0, b, 2):
+                            idx = np.flatnonzero(mm[j])
+                            if len(idx):
+                                acts[j] = rng.choice(idx)
+                    aj = jnp.asarray(acts)
+                    sa, ta = va_step(cur, aj)
+                    sb, tb = vb_step(cur, aj)
+                    bad = tree_diff(decode((sa, ta)), decode((sb, tb)), **tol)
+                    lasts = np.asarray(ta.step_type) == 2
+                    n_last = int(lasts.sum())
+                    rep.evaluated(b)
+                    rep.count("big_batch_steps")
+                    rep.count(f"big_pattern_{'none' if n_last == 0 else ('all' if n_last == b else 'some')}")
+                    hist.append(acts.tolist())
+                    if bad:
+                        rep.violation(name, cid, "vmap_autoreset_equals_vmap_of_autoreset",
+                                      {"fields": bad[:6], "step": i, "batch": b, "next_obs_in_extras": nobs, "terminated_indices": np.flatnonzero(lasts).tolist()[:40]},
+                                      replay={"env": name, "cfg": cfg, "batch": b, "step": i, "next_obs_in_extras": nobs, "actions": hist[-5:]},
+                                      qualifier=f"batch>={32 if b >= 32 else b}")
+                        break
+                    cur, ts = sa, ta
+                    rep.states += b
+                    rep.transitions += b
+            rep.env_count(name, "big_batches")
+    E.cleanup()
+
+
 def run_shard(shard: Dict[str, Any], rep: Report) -> None:
     import jax
     import jax.numpy as jnp
     from jumanji.wrappers import AutoResetWrapper, VmapAutoResetWrapper, VmapWrapper, Wrapper
 
+    if shard.get("kind") == "big_batch":
+        return run_big_batch(shard, rep)
     if shard.get("kind") == "render_unit_axes":
         run_render_unit_axes(shard, rep)
         return
